@@ -133,6 +133,40 @@ func CheckSkeletons(run *report.Run, p *load.Program, pairs []Pair, ruleID strin
 	rCtor := run.Rule(ruleID+SufCtor, "lookup-table constructors: first entry P, entry j = entry j-1 + P (2P for odd multiples), len-1 iterations; fixed-base tables: 32 sub-tables 2^8 apart", 0)
 	rEntry := run.Rule(ruleID+SufEntry, "entry-point facts: MulByCofactor = 2^3, IsSmallOrder, Sum from Identity, length panics precede work, Straus/Pippenger by length only, Ristretto wrappers delegate role for role", 0)
 
+	// ---- delegation targets: never inlined into their callers ------------------
+	c.kn.keep = map[*types.Func]bool{}
+	for _, q := range pairs {
+		for _, k := range []string{q.Vector, q.Generic, q.Dispatcher} {
+			if f := c.funcByKey(k); f != nil {
+				c.kn.keep[f] = true
+			}
+		}
+	}
+	for _, f := range c.routines() {
+		c.kn.keep[f] = true
+	}
+	flagObj := c.kn.pk.Types.Scope().Lookup(flagName)
+	for _, file := range c.kn.pk.Syntax {
+		for _, d := range file.Decls {
+			fd, ok := d.(*ast.FuncDecl)
+			if !ok || fd.Body == nil || flagObj == nil {
+				continue
+			}
+			uses := false
+			ast.Inspect(fd.Body, func(n ast.Node) bool {
+				if id, ok := n.(*ast.Ident); ok && c.kn.pk.TypesInfo.Uses[id] == flagObj {
+					uses = true
+				}
+				return !uses
+			})
+			if uses {
+				if fn, ok := c.kn.pk.TypesInfo.Defs[fd.Name].(*types.Func); ok {
+					c.kn.keep[fn] = true
+				}
+			}
+		}
+	}
+
 	// ---- pairs (with derivation through matching delegations) ---------------
 	type pr struct{ v, g string }
 	var queue []pr
@@ -648,7 +682,7 @@ func (c *skelChecker) hornerPippenger(sk *Skeleton) (string, token.Pos) {
 	// prefix: column(top); S := column result
 	var pre []*node
 	for _, n := range top[:li] {
-		if n.kind == "recode" || n.kind == "each" || n.kind == "table" {
+		if declOnly(n) {
 			continue
 		}
 		pre = append(pre, n)
@@ -875,6 +909,32 @@ func (c *skelChecker) polarityAndWidth(sk *Skeleton, rPol, rWidth *report.Rule) 
 		}
 	}
 	walk(sk.norm, guardCtx{})
+}
+
+// declOnly reports whether n only declares recodings and lookup tables
+// (possibly inside loops over the terms and length guards): it touches no
+// accumulator.
+func declOnly(n *node) bool {
+	switch n.kind {
+	case "recode", "table":
+		return true
+	case "loop", "if":
+		if len(n.body)+len(n.els) == 0 {
+			return false
+		}
+		for _, b := range n.body {
+			if !declOnly(b) {
+				return false
+			}
+		}
+		for _, b := range n.els {
+			if !declOnly(b) {
+				return false
+			}
+		}
+		return true
+	}
+	return false
 }
 
 // digLiterals lists every digit literal of c.
